@@ -6,6 +6,9 @@
 //                                           c = operations performed from inside a coroutine running under coro_queue
 //   ctor i | ctorh i h | ctorv i v | ctorhv i h v | ctorsv i j v | mov i j | movb i j | mrg i j | asg i j
 //   addh i h | pop i | clear i | del i | await i me | yield me | size i | empty i | val i | end
+//   addme i me      sp_i << (handle of the coroutine that will later `await` with id me): in mode c me is the driver
+//                   coroutine (99) itself, in mode n a persistent awaiting coroutine `me` (>= number of counters)
+//   ctorself i me   mode c only: slot i = co_await cocls::self()   (the library's idiom to obtain the own handle)
 //
 // output line:  <head> | <size of every slot, '-' = no object> [; events in order of occurrence]
 // events: r<id> coroutine <id> resumed, n<k> new Ptr[k], d<k> delete[] of a block of k cells, dBAD delete[] of
@@ -23,6 +26,7 @@
 #include <vector>
 
 #include <cocls/suspend_point.h>
+#include <cocls/self.h>
 
 // ---------------------------------------------------------------------------------------------
 // event log + array new/delete tracking (suspend_point is the only user of new[] in a measured op)
@@ -101,6 +105,40 @@ struct Slot {
     }
 };
 
+// awaiting coroutine for normal mode: a coroutine that is *not* running under coro_queue. It is resumed by plain code
+// with a target (then it co_awaits that suspend point) or by whoever holds its handle (a suspend point / the ready
+// queue); every resumption that is not the start of a commanded co_await is logged. It parks on suspend_always after
+// each step, so a bogus extra resumption is observable (logged) instead of being undefined behaviour.
+struct Awaiter {
+    task t{};
+    SPV *tv = nullptr;
+    SPI *tt = nullptr;
+    bool passed = false;
+};
+static task awaiter_body(Awaiter *a, int me) {
+    for (;;) {
+        if (a->tv) {
+            SPV &sp = *a->tv;
+            a->tv = nullptr;
+            bool suspends = !sp.await_ready();
+            co_await sp;
+            a->passed = true;
+            if (suspends) log_resume(me);
+        } else if (a->tt) {
+            SPI &sp = *a->tt;
+            a->tt = nullptr;
+            bool suspends = !sp.await_ready();
+            int &r = co_await sp;
+            (void)r;
+            a->passed = true;
+            if (suspends) log_resume(me);
+        } else {
+            log_resume(me);
+        }
+        co_await std::suspend_always{};
+    }
+}
+
 static std::vector<std::string> split(const std::string &s) {
     std::vector<std::string> out;
     std::istringstream is(s);
@@ -116,6 +154,21 @@ struct Ctx {
     std::map<void *, int> ids;
     bool ended = false;
     static constexpr int driver_id = 99;
+    std::coroutine_handle<> driver_h{};
+    std::map<int, std::unique_ptr<Awaiter>> awaiters;
+
+    Awaiter &awaiter(int me) {
+        auto it = awaiters.find(me);
+        if (it == awaiters.end()) {
+            bool t = g_track;
+            g_track = false;
+            it = awaiters.emplace(me, std::make_unique<Awaiter>()).first;
+            it->second->t = awaiter_body(it->second.get(), me);
+            ids[it->second->t.h.address()] = me;
+            g_track = t;
+        }
+        return *it->second;
+    }
 
     bool live(int i) const { return i >= 0 && i < (int)slots.size() && slots[i].kind != 0; }
     bool vacant(int i) const { return i >= 0 && i < (int)slots.size() && slots[i].kind == 0; }
@@ -145,15 +198,7 @@ struct Ctx {
     }
 };
 
-// one-shot awaiting coroutine for normal mode: a coroutine that is *not* running under coro_queue
-template <typename SP>
-static task awaiter(SP &sp, int me) {
-    bool suspends = !sp.await_ready();
-    co_await sp;
-    if (suspends) log_resume(me);
-}
-
-enum class Act { done, await_void, await_typed, yield, end, bad };
+enum class Act { done, await_void, await_typed, yield, ctorself, end, bad };
 
 // every operation that does not need a co_await in the caller; returns what the caller has to do
 static Act exec(Ctx &c, const std::vector<std::string> &w, std::string &head, int &slot, int &me) {
@@ -205,6 +250,21 @@ static Act exec(Ctx &c, const std::vector<std::string> &w, std::string &head, in
         auto h = c.handle(num(2));
         if (!c.live(i) || !h) return Act::bad;
         c.slots[i].base() << std::move(h);
+    } else if (op == "addme") {
+        me = num(2);
+        if (!c.live(i)) return Act::bad;
+        if (c.coro_mode) {
+            if (me != Ctx::driver_id) return Act::bad;
+            c.slots[i].base() << std::coroutine_handle<>(c.driver_h);
+        } else {
+            if (me < (int)c.coros.size()) return Act::bad;
+            c.slots[i].base() << std::coroutine_handle<>(c.awaiter(me).t.h);
+        }
+    } else if (op == "ctorself") {
+        me = num(2);
+        if (!c.coro_mode || me != Ctx::driver_id || !c.vacant(i)) return Act::bad;
+        slot = i;
+        return Act::ctorself;
     } else if (op == "pop") {
         if (!c.live(i)) return Act::bad;
         std::coroutine_handle<> h = c.slots[i].base().pop();
@@ -238,6 +298,7 @@ static Act exec(Ctx &c, const std::vector<std::string> &w, std::string &head, in
         slot = i;
         me = num(2);
         if (c.coro_mode && me != Ctx::driver_id) return Act::bad;
+        if (!c.coro_mode && me < (int)c.coros.size()) return Act::bad;
         return c.slots[i].kind == 2 ? Act::await_typed : Act::await_void;
     } else if (op == "yield") {
         me = num(1);
@@ -265,9 +326,18 @@ static task driver(Ctx &c, std::istream &in) {
         if (a == Act::end) {
             destroy_all(c);
             c.ended = true;
-            co_return;   // the queue is flushed after the coroutine ends; the `end` line is printed by the caller
+            // the queue is flushed once this coroutine is suspended; the `end` line is printed by the caller.
+            // The driver parks instead of returning, so that a bogus extra resumption is logged, not UB.
+            for (;;) {
+                co_await std::suspend_always{};
+                log_resume(Ctx::driver_id);
+            }
         }
-        if (a == Act::await_void) {
+        if (a == Act::ctorself) {
+            SPV tmp = co_await cocls::self();
+            new (c.slots[slot].buf) SPV(std::move(tmp));
+            c.slots[slot].kind = 1;
+        } else if (a == Act::await_void) {
             SPV &sp = c.slots[slot].v();
             bool suspends = !sp.await_ready();
             co_await sp;
@@ -309,6 +379,8 @@ static void run_case(std::istream &in, bool coro_mode, int nslots, int ncoros) {
     bool stuck = false;
     if (coro_mode) {
         task d = driver(c, in);
+        c.driver_h = d.h;
+        c.ids[d.h.address()] = Ctx::driver_id;
         cocls::coro_queue::install_queue_and_resume(d.h);
         if (!c.ended) {
             // the driver was suspended by a co_await and never resumed again
@@ -331,11 +403,12 @@ static void run_case(std::istream &in, bool coro_mode, int nslots, int ncoros) {
                 break;
             }
             if (a == Act::await_void || a == Act::await_typed) {
-                task t = a == Act::await_void ? awaiter(c.slots[slot].v(), me) : awaiter(c.slots[slot].t(), me);
-                t.h.resume();
-                if (!t.h.done()) head = "stuck";
-                t.h.destroy();
-            } else if (a == Act::bad || a == Act::yield) {
+                Awaiter &aw = c.awaiter(me);
+                if (a == Act::await_void) aw.tv = &c.slots[slot].v(); else aw.tt = &c.slots[slot].t();
+                aw.passed = false;
+                aw.t.h.resume();
+                if (!aw.passed) head = "stuck";
+            } else if (a == Act::bad || a == Act::yield || a == Act::ctorself) {
                 head = "bad";
             }
             c.emit(head);
@@ -348,6 +421,7 @@ static void run_case(std::istream &in, bool coro_mode, int nslots, int ncoros) {
     c.emit("end live=" + std::to_string(live));
     g_track = false;
     for (auto &t : c.coros) t.h.destroy();
+    for (auto &a : c.awaiters) a.second->t.h.destroy();
     g_live->clear();
 }
 
